@@ -18,14 +18,14 @@ Fixpoint joined (l : list (snapshot R * snapshot R * simR)) : Prop :=
   end.
 
 (** post-step point of iteration k = pre-step point of iteration k+1 *)
-Theorem steps_join ins : forall (s : simR), joined (run_steps ins s).
+Theorem steps_join fx ins : forall (s : simR), joined (run_steps fx ins s).
 Proof.
   induction ins as [|i r IH]; intros s; [exact I|].
   cbn [run_steps one_step]. cbn [joined]. split.
-  - destruct (mstat (step_body i (pre_step i s))); try exact I.
+  - destruct (mstat (step_body fx i (pre_step i s))); try exact I.
     destruct r as [|i' r']; [exact I|]. cbn [run_steps one_step].
     symmetry. apply pre_step_snap.
-  - destruct (mstat (step_body i (pre_step i s))); try exact I. apply IH.
+  - destruct (mstat (step_body fx i (pre_step i s))); try exact I. apply IH.
 Qed.
 
 (** ** time_nondecreasing *)
@@ -48,7 +48,7 @@ Qed.
 Lemma track_update_time i (s : simR) : mtime (track_update i s) = mtime s.
 Proof. unfold track_update. destruct (mstat s); reflexivity. Qed.
 
-Lemma post_actions_time i (s : simR) : mtime (post_actions i s) = mtime s.
+Lemma post_actions_time fx i (s : simR) : mtime (post_actions fx i s) = mtime s.
 Proof.
   unfold post_actions, tracking_cut_act, boundary_act, interact_act, discrete_select, step_limit.
   repeat match goal with
@@ -57,12 +57,13 @@ Proof.
   | |- context [in_nextvol ?i] => destruct (in_nextvol i)
   | |- context [iact ?i] => destruct (iact i)
   | |- context [(?a <? ?b)%num] => destruct (a <? b)%num
+  | |- context [if fx then _ else _] => destruct fx
   end; reflexivity.
 Qed.
 
-Theorem time_nondecreasing i (s : simR) :
+Theorem time_nondecreasing fx i (s : simR) :
   0 <= in_phys_step i -> 0 <= in_next i ->
-  let '(pre, _, s1) := one_step i s in ptime pre <= mtime s1.
+  let '(pre, _, s1) := one_step fx i s in ptime pre <= mtime s1.
 Proof.
   intros Hp Hn. unfold one_step, step_body. cbn [snap ptime].
   rewrite post_actions_time. unfold along_step_act.
@@ -106,8 +107,8 @@ Qed.
 Lemma discrete_select_E i (s : simR) : mE (discrete_select i s) = mE s.
 Proof. unfold discrete_select. destruct (paction_eqb _ _); reflexivity. Qed.
 
-Lemma interact_act_E i (s : simR) :
-  mE (interact_act i s) = mE s \/ mE (interact_act i s) = iE (in_inter i).
+Lemma interact_act_E fx i (s : simR) :
+  mE (interact_act fx i s) = mE s \/ mE (interact_act fx i s) = iE (in_inter i).
 Proof.
   unfold interact_act. destruct (paction_eqb _ _); [|now left].
   unfold interaction_apply.
@@ -115,7 +116,7 @@ Proof.
   - destruct (if in_apply_post i then _ else _) as [d secs]. cbn. now right.
   - destruct (if in_apply_post i then _ else _) as [d secs]. cbn. now right.
   - cbn. now left.
-  - unfold step_limit. destruct (_ <? _)%num; cbn; now left.
+  - destruct fx; [cbn; now left|]. unfold step_limit. destruct (_ <? _)%num; cbn; now left.
 Qed.
 
 Lemma boundary_act_E i (s : simR) : mE (boundary_act i s) = mE s.
@@ -125,48 +126,49 @@ Lemma tracking_cut_act_E (s : simR) :
   mE (tracking_cut_act s) = mE s \/ mE (tracking_cut_act s) = mE s - mE s.
 Proof. unfold tracking_cut_act. destruct (paction_eqb _ _); cbn; auto. Qed.
 
-Lemma post_actions_E i (s : simR) :
+Lemma post_actions_E fx i (s : simR) :
   0 <= mE s -> 0 <= iE (in_inter i) <= mE s ->
-  0 <= mE (post_actions i s) <= mE s.
+  0 <= mE (post_actions fx i s) <= mE s.
 Proof.
   intros HE Hi. unfold post_actions.
-  set (p1 := discrete_select i s). set (p2 := interact_act i p1). set (p3 := boundary_act i p2).
+  set (p1 := discrete_select i s). set (p2 := interact_act fx i p1). set (p3 := boundary_act i p2).
   assert (E1 : mE p1 = mE s) by apply discrete_select_E.
   assert (E2 : mE p2 = mE p1 \/ mE p2 = iE (in_inter i)) by apply interact_act_E.
   assert (E3 : mE p3 = mE p2) by apply boundary_act_E.
   destruct (tracking_cut_act_E p3) as [E4|E4]; destruct E2 as [E2|E2]; lra.
 Qed.
 
-Theorem energy_nonincreasing i (s : simR) :
+Theorem energy_nonincreasing fx i (s : simR) :
   0 <= mE s -> 0 <= in_eloss i <= mE s ->
   0 <= iE (in_inter i) <= mE (along_step_act i (pre_step i s)) ->
-  let '(pre, _, s1) := one_step i s in mE s1 <= pE pre /\ 0 <= mE s1.
+  let '(pre, _, s1) := one_step fx i s in mE s1 <= pE pre /\ 0 <= mE s1.
 Proof.
   intros HE Hd Hi. unfold one_step, step_body. cbn [snap pE].
   assert (H0 : mE (pre_step i s) = mE s) by (unfold pre_step; destruct (mstat s); reflexivity).
   pose proof (along_step_act_E i (pre_step i s) ltac:(lra)) as H1.
   set (a := along_step_act i (pre_step i s)) in *.
   assert (Ha : 0 <= mE a) by lra.
-  pose proof (post_actions_E i a Ha Hi) as H2. lra.
+  pose proof (post_actions_E fx i a Ha Hi) as H2. lra.
 Qed.
 
 (** ** frame facts for step length / position / volume in the post-step actions *)
 
-Lemma interact_act_nofail i (s : simR) :
-  iact (in_inter i) <> IFailed ->
-  mstep (interact_act i s) = mstep s /\ mpos (interact_act i s) = mpos s
-  /\ mvol (interact_act i s) = mvol s.
+Lemma interact_act_nofail fx i (s : simR) :
+  (fx = true \/ iact (in_inter i) <> IFailed) ->
+  mstep (interact_act fx i s) = mstep s /\ mpos (interact_act fx i s) = mpos s
+  /\ mvol (interact_act fx i s) = mvol s.
 Proof.
   intros Hf. unfold interact_act. destruct (paction_eqb _ _); [|auto].
   unfold interaction_apply.
-  destruct (iact (in_inter i)) eqn:Ea; try congruence.
+  destruct (iact (in_inter i)) eqn:Ea.
   - destruct (if in_apply_post i then _ else _) as [d secs]. cbn. auto.
   - destruct (if in_apply_post i then _ else _) as [d secs]. cbn. auto.
   - cbn. auto.
+  - destruct Hf as [->|Hf]; [cbn; auto | congruence].
 Qed.
 
-Lemma interact_act_pos i (s : simR) :
-  mpos (interact_act i s) = mpos s /\ mvol (interact_act i s) = mvol s.
+Lemma interact_act_pos fx i (s : simR) :
+  mpos (interact_act fx i s) = mpos s /\ mvol (interact_act fx i s) = mvol s.
 Proof.
   unfold interact_act. destruct (paction_eqb _ _); [|auto].
   unfold interaction_apply.
@@ -174,10 +176,10 @@ Proof.
   - destruct (if in_apply_post i then _ else _) as [d secs]. cbn. auto.
   - destruct (if in_apply_post i then _ else _) as [d secs]. cbn. auto.
   - cbn. auto.
-  - unfold step_limit. destruct (_ <? _)%num; cbn; auto.
+  - destruct fx; [cbn; auto|]. unfold step_limit. destruct (_ <? _)%num; cbn; auto.
 Qed.
 
-Lemma post_actions_pos i (s : simR) : mpos (post_actions i s) = mpos s.
+Lemma post_actions_pos fx i (s : simR) : mpos (post_actions fx i s) = mpos s.
 Proof.
   unfold post_actions.
   assert (H1 : forall x, mpos (tracking_cut_act x) = mpos x)
@@ -186,15 +188,15 @@ Proof.
     by (intros x; unfold boundary_act; destruct (paction_eqb _ _); [destruct (in_nextvol i)|]; reflexivity).
   assert (H4 : forall x, mpos (discrete_select i x) = mpos x)
     by (intros x; unfold discrete_select; destruct (paction_eqb _ _); reflexivity).
-  rewrite H1, H2. destruct (interact_act_pos i (discrete_select i s)) as [H3 _]. now rewrite H3, H4.
+  rewrite H1, H2. destruct (interact_act_pos fx i (discrete_select i s)) as [H3 _]. now rewrite H3, H4.
 Qed.
 
-Lemma post_actions_step_nofail i (s : simR) :
-  iact (in_inter i) <> IFailed -> mstep (post_actions i s) = mstep s.
+Lemma post_actions_step_nofail fx i (s : simR) :
+  (fx = true \/ iact (in_inter i) <> IFailed) -> mstep (post_actions fx i s) = mstep s.
 Proof.
   intros Hf. unfold post_actions.
   rewrite tracking_cut_act_step, boundary_act_step.
-  destruct (interact_act_nofail i (discrete_select i s) Hf) as [H3 _].
+  destruct (interact_act_nofail fx i (discrete_select i s) Hf) as [H3 _].
   now rewrite H3, discrete_select_step.
 Qed.
 
@@ -212,16 +214,16 @@ Proof.
 Qed.
 
 (** ** step_positive_or_stopped *)
-Theorem step_positive_or_stopped i (s : simR) :
+Theorem step_positive_or_stopped fx i (s : simR) :
   (mstat s = Initializing \/ mstat s = Alive) ->
-  iact (in_inter i) <> IFailed ->
+  (fx = true \/ iact (in_inter i) <> IFailed) ->
   0 < in_next i ->
   (0 < in_phys_step i \/ (in_phys_step i = 0 /\ mE s = 0)) ->
-  let '(pre, _, s1) := one_step i s in
+  let '(pre, _, s1) := one_step fx i s in
   0 < mstep s1 \/ (mstep s1 = 0 /\ pE pre = 0).
 Proof.
   intros Hs Hf Hn Hp. unfold one_step, step_body. cbn [snap pE].
-  rewrite (post_actions_step_nofail _ _ Hf).
+  rewrite (post_actions_step_nofail _ _ _ Hf).
   assert (Hne : mstat s <> Errored) by (destruct Hs as [Hs|Hs]; rewrite Hs; discriminate).
   destruct (pre_step_limit i s Hne) as [H0 Ha].
   assert (HE : mE (pre_step i s) = mE s) by (unfold pre_step; destruct (mstat s); reflexivity).
@@ -235,8 +237,8 @@ Proof.
 Qed.
 
 (** ** volume_changes_only_at_boundary *)
-Theorem volume_changes_only_at_boundary i (s : simR) :
-  let '(pre, _, s1) := one_step i s in
+Theorem volume_changes_only_at_boundary fx i (s : simR) :
+  let '(pre, _, s1) := one_step fx i s in
   pvol pre <> mvol s1 -> mpost s1 = ABoundary.
 Proof.
   unfold one_step, step_body. cbn [snap pvol]. intros Hv.
@@ -252,7 +254,7 @@ Proof.
     unfold propagate_apply. numR. rb; reflexivity. }
   rewrite <- Hva in Hv. clearbody a. clear Hva.
   unfold post_actions in *.
-  set (p1 := discrete_select i a) in *. set (p2 := interact_act i p1) in *.
+  set (p1 := discrete_select i a) in *. set (p2 := interact_act fx i p1) in *.
   assert (V1 : mvol p1 = mvol a)
     by (subst p1; unfold discrete_select; destruct (paction_eqb _ _); reflexivity).
   assert (V2 : mvol p2 = mvol p1) by (subst p2; apply interact_act_pos).
@@ -288,15 +290,15 @@ Qed.
 
 (** without an allocation failure, the reported step length is never shorter
     than (here: equals) the straight-line displacement of the step *)
-Theorem step_ge_displacement i (s : simR) :
+Theorem step_ge_displacement fx i (s : simR) :
   (mstat s = Initializing \/ mstat s = Alive) ->
-  iact (in_inter i) <> IFailed ->
+  (fx = true \/ iact (in_inter i) <> IFailed) ->
   dot (mdir s) (mdir s) = 1 -> 0 < in_next i -> 0 <= in_phys_step i ->
-  let '(pre, _, s1) := one_step i s in
+  let '(pre, _, s1) := one_step fx i s in
   distance (ppos pre) (mpos s1) <= mstep s1.
 Proof.
   intros Hs Hf Hu Hn Hp. unfold one_step, step_body. cbn [snap ppos].
-  rewrite (post_actions_step_nofail _ _ Hf), post_actions_pos.
+  rewrite (post_actions_step_nofail _ _ _ Hf), post_actions_pos.
   assert (Hne : mstat s <> Errored) by (destruct Hs as [Hs|Hs]; rewrite Hs; discriminate).
   destruct (pre_step_limit i s Hne) as [H0 Ha].
   assert (HD : mdir (pre_step i s) = mdir s) by (unfold pre_step; destruct (mstat s); reflexivity).
